@@ -33,9 +33,11 @@ struct H {
   Ctx* ctx; Server* srv = nullptr; EstCb* est[NES] = {nullptr, nullptr, nullptr, nullptr}; std::vector<Obj*> graveyard;
   ListenerCb lcb; Server::Listener* listener = nullptr; int port = 0; int closedPortFd = -1; int closedPort = 0;
   std::vector<const Op*> reactions; size_t nextReaction = 0; int depth = 0;
+  int burstOpen = 0;   // establishers of a burst that are not notified yet (the last notification interrupts the loop)
   void removeEst(int s, const char* why) {
     EstCb* e = est[s]; if (!e) return;
     if (!e->done) ctx->label("removed_before_notification");
+    if (!e->done && burstOpen > 0 && --burstOpen == 0) srv->interrupt();   // (removed from inside a callback during a burst: nothing to wait for any more)
     srv->remove(*e->handle); e->alive = false; est[s] = nullptr; graveyard.push_back(e); (void)why;
   }
   void react(int self) {
@@ -60,7 +62,7 @@ Server::Client::ICallback* EstCb::onConnected(Server::Client&) {
   if (done) h->ctx->fail("dispatch:establisher-twice", "an establisher was notified twice");
   done = true;
   if (!expectConnect) h->ctx->fail("dispatch:connected-to-closed-port", "onConnected for a port nobody listens on");
-  h->ctx->label("onConnected"); H* hh = h; int me = slot; hh->react(me);
+  h->ctx->label("onConnected"); H* hh = h; int me = slot; if (hh->burstOpen > 0 && --hh->burstOpen == 0) hh->srv->interrupt(); hh->react(me);
   return nullptr;
 }
 void EstCb::onAbolished() {
@@ -70,7 +72,7 @@ void EstCb::onAbolished() {
   // (a connection attempt to a listening port may still fail for reasons outside the library - no local port left while thousands
   // of connections per second leave TIME_WAIT entries behind, a full accept queue - and the statement does not promise otherwise)
   if (expectConnect) h->ctx->count("abolished_although_listening");
-  h->ctx->label("onAbolished"); H* hh = h; int me = slot; hh->react(me);
+  h->ctx->label("onAbolished"); H* hh = h; int me = slot; if (hh->burstOpen > 0 && --hh->burstOpen == 0) hh->srv->interrupt(); hh->react(me);
 }
 int boundSocket(int& port, bool listening) {
   int s = socket(AF_INET, SOCK_STREAM, 0); sockaddr_in a; memset(&a, 0, sizeof a); a.sin_family = AF_INET; a.sin_addr.s_addr = htonl(INADDR_LOOPBACK); a.sin_port = 0;
@@ -88,9 +90,9 @@ void pbt_warmup() {
 
 void pbt_generate(Rng& r, int size, Case& c) {
   int n = 2 + (int)r.below((uint64_t)std::min(size, 12) + 1);
-  static const char* names[] = {"est", "rm", "run", "wait"};
-  static const int w[] = {10, 6, 6, 6};
-  for (int k = 0; k < n; ++k) c.add(names[r.weighted(w, 4)], (long)r.below(NES), (long)r.below(64), (long)r.below(8));
+  static const char* names[] = {"est", "rm", "run", "wait", "burst"};
+  static const int w[] = {10, 6, 6, 6, 1};
+  for (int k = 0; k < n; ++k) c.add(names[r.weighted(w, 5)], (long)r.below(NES), (long)r.below(64), (long)r.below(8));
   int nr = (int)r.below(4); for (int k = 0; k < nr; ++k) c.add(r.chance(70) ? "r_rm" : "r_new", (long)r.below(NES), (long)r.below(2));
 }
 
@@ -111,7 +113,24 @@ void pbt_run(const Case& cs, Ctx& ctx) {
     if (op.name == "est") h.newEst((int)(a % NES), (b & 7) == 0);   // mostly to the closed port: a refused attempt leaves no TIME_WAIT entry behind, and the look-up is the same
     else if (op.name == "rm") h.removeEst((int)(a % NES), "script");
     else if (op.name == "run") { h.runFor(1 + b % 4); ctx.label("run"); }
-    else if (op.name == "wait") { usleep((useconds_t)(b % 8) * 150); }   // lets the resolver job finish (or not) before the next action
+    else if (op.name == "wait") { usleep((useconds_t)(b % 8) * 150); }
+    else if (op.name == "burst") {
+      // several look-ups finish before the loop runs (their wake-ups through the one event descriptor merge into one): the loop
+      // must hand all of them on when it wakes up, not one per wake-up. No timer runs meanwhile except a distant watchdog; the
+      // last notification interrupts the loop, so a correct loop returns within milliseconds
+      for (int i = 0; i < NES; ++i) h.removeEst(i, "burst");
+      h.runFor(2);
+      int k = 2 + (int)(b % 3); for (int i = 0; i < k; ++i) h.newEst(i, false);
+      int open = 0; for (int i = 0; i < NES; ++i) if (h.est[i] && !h.est[i]->done) ++open;
+      if (open >= 2) {
+        usleep(4000); h.burstOpen = open;
+        struct Late : public Server::Timer::ICallback { Server* s; bool fired = false; void onActivated() override { fired = true; s->interrupt(); } } late; late.s = server;
+        Server::Timer* t = server->time(3000, late); server->run(); server->remove(*t); h.burstOpen = 0;
+        if (late.fired) { int left = 0; for (int i = 0; i < NES; ++i) if (h.est[i] && !h.est[i]->done) ++left;
+          if (left > 0) { ctx.opIndex = -2; ctx.fail("dispatch:establisher-starved", std::to_string(left) + " of " + std::to_string(open) + " establishers whose look-ups had finished before the loop ran were not notified within 3 s (one wake-up, several finished look-ups)"); } }
+        ctx.label("lookups_finished_together");
+      }
+    }   // lets the resolver job finish (or not) before the next action
   }
   ctx.opIndex = -3;
   // every establisher that is still there has to be notified: the look-up of this host's own name and a connection attempt on the
